@@ -29,6 +29,9 @@ _py_complex = builtins.complex
 
 
 class _State:
+    var_leaves = False  # tf.Variable(value) becomes a fresh differentiation leaf bound to value
+    bindings = {}  # leaf Term -> value Term
+    leaf_counter = 0
     symbolic_random = False
     rng = np.random.RandomState(0)
     random_log = []  # fresh random symbols, in creation order
@@ -299,7 +302,10 @@ class Tensor:
         return _py_bool(v)
 
     def __float__(self):
-        return float(self._scalar())
+        v = self._scalar()
+        if isinstance(v, SymReal):
+            return _sym_float(v)
+        return float(v)
 
     def __int__(self):
         return int(self._scalar())
@@ -451,6 +457,8 @@ class Variable(Tensor):
             self.arr = self.arr.astype(np.float32) if self.arr.dtype != object else self.arr
         self._trainable = trainable
         self._name = name if name is not None else "Variable_%d" % next(_var_counter)
+        if STATE.var_leaves:
+            self.arr = _leafify(self.arr, self._name)
 
     @property
     def name(self):
@@ -465,6 +473,8 @@ class Variable(Tensor):
         a = _cast_arr(a, self._dtype)
         if a.shape != self.arr.shape:
             a = np.broadcast_to(a, self.arr.shape).copy()
+        if STATE.var_leaves:
+            a = _leafify(a, self._name)
         self.arr = a
         return self
 
@@ -485,6 +495,50 @@ class Variable(Tensor):
 
     def __hash__(self):
         return id(self)
+
+
+def _leafify(a, name):
+    """every element that is not already a bare symbolic variable becomes a
+    fresh leaf bound (in STATE.bindings and as a fact) to its value"""
+    if a.dtype != object and a.dtype.kind not in "fiu":
+        return a
+    out = np.empty(a.shape, dtype=object)
+    for idx in np.ndindex(*a.shape):
+        e = a[idx]
+        if isinstance(e, SymComplex):
+            return a
+        if isinstance(e, SymReal):
+            t = e.t
+            if t.op == "var" and t not in STATE.bindings:
+                out[idx] = e
+                continue
+        else:
+            t = T.const(float(e), "R")
+        STATE.leaf_counter += 1
+        leaf = T.var("V%d!%s" % (STATE.leaf_counter, name.replace(":", "_")))
+        STATE.bindings[leaf] = T.to_real(t)
+        S.ctx().fact(T.eq(leaf, T.to_real(t)))
+        out[idx] = SymReal(leaf)
+    return out
+
+
+def resolve_bindings(*terms):
+    """substitute variable leaves by the values they are bound to (transitively)"""
+    res = list(terms)
+    for _ in _py_range(50):
+        fv = set(T.free_vars(*res))
+        m = {l: v for l, v in STATE.bindings.items() if l in fv}
+        if not m:
+            break
+        res = T.substitute(res, m)
+    return res[0] if len(res) == 1 else res
+
+
+def reset_state():
+    STATE.bindings = {}
+    STATE.leaf_counter = 0
+    STATE.random_log = []
+    STATE.random_counter = 0
 
 
 class TensorSpec:
@@ -522,11 +576,18 @@ def _arr(x, dtype=None):
     elif isinstance(x, (list, tuple)):
         if any(isinstance(e, (Tensor, list, tuple, np.ndarray, SymReal, SymComplex, SymBool)) for e in x):
             parts = [_arr(e) for e in x]
+            shp = parts[0].shape if parts else ()
+            for p in parts:
+                if p.shape != shp:
+                    # TensorFlow packs a list into one tensor: all shapes must match
+                    raise ValueError("Shapes of all inputs must match: values[0].shape = %r != %r" % (list(shp), list(p.shape)))
             if any(p.dtype == object for p in parts):
-                shp = np.broadcast_shapes(*[p.shape for p in parts]) if parts else ()
                 a = np.empty((len(parts),) + tuple(shp), dtype=object)
                 for i, p in enumerate(parts):
-                    a[i] = np.broadcast_to(p, shp) if p.shape != tuple(shp) else p
+                    if p.ndim == 0:
+                        a[i] = p[()]
+                    else:
+                        a[i] = p.astype(object) if p.dtype != object else p
             else:
                 a = np.stack(parts) if parts else np.zeros((0,))
         else:
@@ -544,15 +605,39 @@ def _arr(x, dtype=None):
     return a
 
 
+_EVAL_UFS = None
+
+
+def _eval_term(t):
+    """numeric value of a term whose free variables are all bound leaves
+    (symbolic-then-evaluate: used by the float conformance of gradient code)"""
+    import math as _m
+
+    global _EVAL_UFS
+    if _EVAL_UFS is None:
+        _EVAL_UFS = {"log": _m.log, "exp": _m.exp, "sin": _m.sin, "cos": _m.cos, "tan": _m.tan, "tanh": _m.tanh, "arctan": _m.atan}
+    r = resolve_bindings(t)
+    return T.evaluate(r, {}, ufs=_EVAL_UFS)
+
+
+def _sym_float(x):
+    if x.t.op == "const":
+        return float(x.t.args[0])
+    try:
+        return float(_eval_term(x.t))
+    except T.EvalError:
+        return float(x)  # raises Concretization
+
+
 def _concretize(a, dt):
     npd = dt.as_numpy_dtype if dt is not None and dt.as_numpy_dtype is not object else np.float64
     out = np.empty(a.shape, dtype=npd)
     flat = out.reshape(-1)
     for i, x in enumerate(a.reshape(-1)):
         if isinstance(x, SymComplex):
-            flat[i] = _py_complex(x)
+            flat[i] = _py_complex(_sym_float(x.re), _sym_float(x.im))
         elif isinstance(x, SymReal):
-            flat[i] = float(x) if npd not in (np.int32, np.int64) else int(x)
+            flat[i] = _sym_float(x) if npd not in (np.int32, np.int64) else int(x)
         elif isinstance(x, SymBool):
             flat[i] = _py_bool(x)
         else:
